@@ -388,3 +388,65 @@ func c02RequalifyEveryKind(ctx *core.Ctx, cc *CC, rule string) {
 		ctx.Unresolved(rule, "re-qualification", "UnderlyingType calls no func(*Type, string) *Type helper")
 	}
 }
+
+// c12ResponseVerdictIsTheServers — C12.R17. Whether a response is too large is
+// decided where the response is built: the server measures the reply frame
+// against the limit the client announced and answers 413 (HTTP) or the
+// RESPONSE_TOO_LARGE application exception. The client only translates that
+// verdict. A client-side guard of its own (a LimitReader on the base64 body,
+// say) measures something else than the server did — a frame the server
+// accepted and sent is thrown away with RESPONSE_TOO_LARGE. Every construction
+// of the RESPONSE_TOO_LARGE transport exception therefore lies on the edge of a
+// comparison with the server's verdict (status 413 / the application
+// exception's type id).
+func c12ResponseVerdictIsTheServers(ctx *core.Ctx, r *RT, rule string) {
+	ctx.Rule(rule, "RESPONSE_TOO_LARGE is reported only where the server said so: every construction of that transport exception lies on the edge of a test of the server's verdict (HTTP 413 / application exception type)", 2)
+	kind := constInt(r, "TRANSPORT_EXCEPTION_RESPONSE_TOO_LARGE")
+	appKind := constInt(r, "APPLICATION_EXCEPTION_RESPONSE_TOO_LARGE")
+	n := 0
+	for _, fn := range r.Fns {
+		ord := 0
+		for _, c := range ssax.Calls(fn) {
+			if c.ShortName() != "NewTTransportException" || len(c.Args()) == 0 {
+				continue
+			}
+			if k, isK := ssax.ConstInt(c.Args()[0]); !isK || k != kind {
+				continue
+			}
+			n++
+			ord++
+			ok := false
+			for cur := c.Instr.(ssa.Instruction).Block(); cur != nil && !ok; cur = cur.Idom() {
+				if len(cur.Preds) != 1 {
+					continue
+				}
+				p := cur.Preds[0]
+				iff, isIf := p.Instrs[len(p.Instrs)-1].(*ssa.If)
+				if !isIf {
+					continue
+				}
+				switch cond := iff.Cond.(type) {
+				case *ssa.BinOp:
+					for _, op := range []ssa.Value{cond.X, cond.Y} {
+						if k, isK := ssax.ConstInt(op); isK && (k == 413 || k == appKind) {
+							// … on the edge where the verdict IS "too large"
+							if (cond.Op == token.EQL && p.Succs[0] == cur) || (cond.Op == token.NEQ && p.Succs[1] == cur) {
+								ok = true
+							}
+						}
+					}
+				case *ssa.Call:
+					// a predicate helper (responseTooLarge(resp)): judged by C12.R4
+					if h := cond.Call.StaticCallee(); h != nil && h.Pkg == fn.Pkg && p.Succs[0] == cur {
+						ok = true
+					}
+				}
+			}
+			ctx.Check(ok, rule, ssax.Name(fn)+sprintf(" › RESPONSE_TOO_LARGE #%d translates the server's verdict", ord), r.IPos(c.Instr), "on the edge of a test for 413 / APPLICATION_EXCEPTION_RESPONSE_TOO_LARGE",
+				"the client decides by itself that a response is too large (a limit applied to the encoded body, say): a response the server measured, accepted and sent is discarded — the handler's result and response headers never reach the caller")
+		}
+	}
+	if n == 0 {
+		ctx.Unresolved(rule, "RESPONSE_TOO_LARGE", "no construction of the RESPONSE_TOO_LARGE transport exception found")
+	}
+}
